@@ -1629,6 +1629,12 @@ class Emitter:
             lines.append('%s %s(%s) { %s nd_; %s_calls++; %s %s_ret = nd_; return nd_; }' % (
                 rt, nm, ps, rt, nm, ' '.join('%s_arg%d = a%d;' % (nm, i, i) for i in range(len(f.params))), nm))
             out.append('\n'.join(lines))
+        # ghost state of the libm stubs that this closure does NOT call: declared all the same (never written, _calls stays 0), so that a contract which
+        # says "std::hypot is called once" still compiles - and fails - when a change makes the code call a different function (e.g. hypotf)
+        for base in ('sin', 'cos', 'tan', 'asin', 'acos', 'atan', 'atan2', 'sqrt', 'cbrt', 'hypot', 'fmod', 'remainder'):
+            for nm_, ty_ in ((base, 'double'), (base + 'f', 'float')):
+                if nm_ in s.stubs_used: continue
+                out.append('static int ll2c_stub_%s_calls; static %s ll2c_stub_%s_arg0, ll2c_stub_%s_arg1, ll2c_stub_%s_ret;   /* not called in this closure */' % (nm_, ty_, nm_, nm_, nm_))
         return '\n'.join(out)
 
 
